@@ -50,6 +50,10 @@ def short(x, n=300):
     return s if len(s) <= n else s[:n] + f"...(+{len(s) - n})"
 
 
+THOROUGH_SCALE = {"C01": 8, "C02": 10, "C03": 10, "C04": 8, "C05": 10, "C06": 10, "C07": 6, "C08": 10, "C09": 2.5, "C10": 10, "C11": 6, "C12": 8,
+                  "C13": 8, "C14": 8, "C15": 2, "C16": 10, "C17": 1, "C18": 6, "C19": 10}
+
+
 class Check:
     """one run of one property's check"""
 
@@ -81,6 +85,13 @@ class Check:
     # ------------------------------------------------------------------ running cases
     def count(self, key: str, n: int = 1):
         self.dist[key] = self.dist.get(key, 0) + n
+
+    def n(self, thorough: int, quick: int) -> int:
+        """workload size: the quick figure, or the thorough figure times this property's scale (sized so a thorough run takes minutes)"""
+        if not self.thorough:
+            return quick
+        scale = float(os.environ.get("VERIF_THOROUGH_SCALE", THOROUGH_SCALE.get(self.prop_id, 4)))
+        return max(quick, int(thorough * scale))
 
     def run_cases(self, cases: list[Case], corr: str) -> list[Result]:
         """implementation and model on the same cases; disagreements are recorded under correspondence `corr`"""
